@@ -12,7 +12,8 @@ rc=0
 for p in "$@"; do
   out=$(/verif/bin/wv check $p --repo $S --no-evidence 2>&1 | sed "s#$S#/repo#g")
   v=$(echo "$out" | grep -c "^VIOLATION")
-  echo "$d $p violations=$v :: $(echo "$out" | grep -A1 '^VIOLATION' | grep obligation | head -3 | cut -c1-150 | tr '\n' '|')"
+  r=$(echo "$out" | grep "^VIOLATION" | grep -vc "no-failing-input-found")
+  echo "$d $p violations=$v replayed=$r :: $(echo "$out" | grep -A1 '^VIOLATION' | grep obligation | head -3 | cut -c1-150 | tr '\n' '|')"
   echo "$out" | tail -1
 done
 rm -rf $S
